@@ -81,7 +81,7 @@ CORE_TEXT = {
  'C14': 'thread confinement: a thread holding another context or none fails M_MOD_ASSERT with EPERM; whenever that assertion fails EVERY module operation / pub-sub call is refused with a negative code and no effect; a foreign call leaves the owner thread context untouched; a message cannot be addressed to a module of another context. Independence: coq/Globals.v (every library symbol in a writable section with its writers, REGENERATED from the tree by nm + a source scan on every run) satisfies the policy of coq/GlobalsModel.v, hence no two accesses of different context threads to one global race (happens-before model by phases: ELF constructor, pthread_once, documented configuration step). Further engines of this check: foreign-thread calls are really made by another pthread in the differential driver (also while the owner is inside the module callback); 2..16 contexts loop concurrently under ThreadSanitizer and each context observation is compared with the same program run alone',
  'C15': 'GLOBAL: name and flags (replace, persist, deny-ctx/pub/sub, hooks) of a registered module never change (lifecycle_monotone); the deny-guarded calls are the C functions containing M_MOD_ASSERT_PERM (Guards.v, regenerated); live name without allow-replace -> EEXIST, deny-pub / deny-sub calls refused, deny-ctx hides the context during the callbacks of the module, reserved topic prefix refused, persistent module not deregistrable while looping',
  'C16': 'GLOBAL: in every reachable world a module that is not RUNNING/PAUSED has an empty stash (stack_and_stash_empty_unless_active); unstash(n) hands over exactly firstn n of the stash in one invocation and returns that number, stash appends, high priority events refused, both refused unless RUNNING',
- 'C17': 'GLOBAL: in every reachable world a module that is not RUNNING/PAUSED has an empty handler stack, i.e. every stop clears it, for every script and callback behaviour (stack_and_stash_empty_unless_active); become pushes, unbecome pops the top or fails on the empty stack, every invocation runs hd(stack) fixed before the body starts, no empty invocation, both refused unless RUNNING',
+ 'C17': 'GLOBAL: in every reachable world a module that is not RUNNING/PAUSED has an empty handler stack, i.e. every stop clears it, for every script and callback behaviour (stack_and_stash_empty_unless_active); become pushes, unbecome pops the top or fails on the empty stack, every invocation runs hd(stack) fixed before the body starts, no empty invocation, both refused unless RUNNING; two steps composed: in the world an accepted become(h) returns the next invocation runs h, after an accepted unbecome it runs the handler below or the registration-time one',
  'C18': 'GLOBAL: in every reachable world every bucket is well formed and holds at most its burst (tokens_never_exceed_burst); which calls consume a token is READ FROM THE C SOURCE (Guards.v): every call whose function contains M_MOD_CONSUME_TOKEN is refused without effect on an empty bucket (out_of_tokens_refused), the set is pinned (token_guarded_calls) and the token is taken after every other check (token_is_consumed_last); token consumption step (unlimited / refused at 0 / decrement) and the bucket bound for EVERY sequence of consumes and refills: successes <= tokens + refills <= burst + refills',
  'C19': 'one notification reaches exactly the RUNNING/PAUSED modules subscribed to its topic, one copy each, system-flagged, payload-less, naming its module; shape of a system notification (system flag, no payload, named sender), pause and resume notify exactly once after the state change',
  'C20': 'after drop_sources none of the sources of the module is polled (their internal descriptors are closed); what each destructor closes: poll handle with the context, user descriptors only with auto-close, internal descriptors when polling stops (idempotent)',
